@@ -27,6 +27,19 @@ for text in (WARM, "x = (", "x = 1 +\n"):
     except Exception:  # noqa: BLE001
         pass
 
+import sysconfig  # noqa: E402
+
+# Codecs are loaded lazily by the interpreter itself (e.g. "unicode_escape" the first time an f-string with an
+# escape is unparsed): an import / open / exec of a module under <stdlib>/encodings is interpreter machinery,
+# not an effect of the input.  Everything else (any other import, any exec of a code object that does not
+# come from there) is reported.
+CODEC_DIR = os.path.join(sysconfig.get_paths()["stdlib"], "encodings") + os.sep
+for _codec in ("unicode_escape", "raw_unicode_escape", "latin_1", "ascii", "utf_8", "utf_16", "utf_32", "idna", "punycode"):
+    try:
+        "x".encode(_codec)
+    except Exception:  # noqa: BLE001
+        pass
+
 EVENTS = []
 ACTIVE = False
 SUSPICIOUS_PREFIX = ("os.", "subprocess.", "socket.", "shutil.", "ctypes.", "winreg.", "urllib.", "http.", "ftplib.", "smtplib.", "webbrowser.", "pty.", "glob.", "tempfile.", "mmap.", "signal.", "syslog.", "fcntl.", "resource.", "sqlite3.")
@@ -39,11 +52,19 @@ def hook(event, args):
         path = args[0] if args else None
         if path in ("<unknown>", "<string>", "<fstring>"):
             return
+        if isinstance(path, str) and path.startswith(CODEC_DIR):
+            return
         EVENTS.append(f"open:{path}")
     elif event == "exec":
+        code = args[0] if args else None
+        if getattr(code, "co_filename", "").startswith(CODEC_DIR):
+            return
         EVENTS.append("exec")
     elif event == "import":
-        EVENTS.append(f"import:{args[0] if args else '?'}")
+        name = str(args[0]) if args else "?"
+        if name.startswith("encodings."):
+            return
+        EVENTS.append(f"import:{name}")
     elif event.startswith(SUSPICIOUS_PREFIX):
         EVENTS.append(event)
 
